@@ -339,8 +339,8 @@ Definition uniform (cfg : dcfg) (am : arr_opt) (hm : aoh_opt) : Prop :=
    the three things DifferConfig._get_config_for compares.  [par] / [pref] are
    those coordinates, threaded exactly as the comparison passes them down: the
    right-hand container and the key / element index of the right-hand child (for
-   an element of a positionally compared list the code passes the index AFTER
-   its `idx += 1`, i.e. position + 1: kept as it is).  A lookup that raises
+   an element of a positionally compared list its position, since the repair
+   of the stale `idx` that used to be passed after `idx += 1`).  A lookup that raises
    (a mode name from_str rejects) gives no reading: the comparison raises too. *)
 Definition cfg_list_mode (cfg : dcfg) (nc : coords) (rels : list node) : option lmode :=
   let arr (d : bool) :=
@@ -410,7 +410,7 @@ Fixpoint equiv_c (cfg : dcfg) (a b : node) (par : option node) (pref : pyval) {s
           (fix go (n : nat) (l l' : list node) {struct l} : bool :=
              match l, l' with
              | [], [] => true
-             | x :: r, y :: r' => equiv_c cfg x y (Some b) (PInt (Z.of_nat (S n))) && go (S n) r r'
+             | x :: r, y :: r' => equiv_c cfg x y (Some b) (PInt (Z.of_nat n)) && go (S n) r r'
              | _, _ => false
              end) 0 els els'
       | Some (LPos false) => forall2b data_eq els els'
@@ -469,7 +469,7 @@ Fixpoint kguard_c (cfg : dcfg) (a b : node) (par : option node) (pref : pyval) {
       | Some (LPos true) =>
           (fix go (n : nat) (l l' : list node) {struct l} : bool :=
              match l, l' with
-             | x :: r, y :: r' => kguard_c cfg x y (Some b) (PInt (Z.of_nat (S n))) && go (S n) r r'
+             | x :: r, y :: r' => kguard_c cfg x y (Some b) (PInt (Z.of_nat n)) && go (S n) r r'
              | _, _ => true
              end) 0 els els'
       | Some (LPos false) => true
